@@ -137,17 +137,36 @@ func VxTransplant() {
 	vxAssert("current format: record transplanted from another key is rejected", err != nil && got == nil)
 }
 
+// a ciphertext sealed through the BarrierEncryptor under ANY key name - including the empty name used for batch
+// tokens, whose ciphertexts are handed to clients - is never accepted as the stored record of a (different) storage key
+func VxEncryptorBlobAsRecord() {
+	ctx := context.Background()
+	phys := vxNewPhys()
+	b, _, _ := vxBarrier(phys, AESGCMVersion2, 7)
+	name := vxString("encryptor key name", vxChoose("nameLen", 3))
+	blob, err := b.Encrypt(ctx, name, vxBytes("token", 2))
+	vxAssert("encrypt ok", err == nil)
+	k := vxString("k", 1+vxChoose("kLen", 2))
+	vxAssume(k != name)
+	v := vxBytes("v", 2)
+	vxAssert("put ok", b.Put(ctx, &logical.StorageEntry{Key: k, Value: v}) == nil)
+	phys.vals[0] = append([]byte(nil), blob...)
+	got, gerr := b.Get(ctx, k)
+	vxReach("encryptor blob installed as record")
+	vxAssert("a BarrierEncryptor ciphertext installed under a storage key is rejected", gerr != nil && got == nil)
+}
+
 // Encrypt/Decrypt (BarrierEncryptor) round trip and binding
 func VxEncryptDecrypt() {
 	ctx := context.Background()
 	b, _, _ := vxBarrier(vxNewPhys(), AESGCMVersion2, 3)
 	pt := vxBytes("pt", vxChoose("ptLen", 3))
-	key := vxString("key", 2)
+	key := vxString("key", vxChoose("keyLen", 3)) // includes the empty key name (how batch tokens are sealed)
 	ct, err := b.Encrypt(ctx, key, pt)
 	vxAssert("encrypt ok", err == nil && len(ct) == len(pt)+33)
 	out, err := b.Decrypt(ctx, key, ct)
 	vxAssert("decrypt(encrypt(x)) = x", err == nil && vxSameBytes(out, pt))
-	other := vxString("other", 2)
+	other := vxString("other", vxChoose("otherLen", 3))
 	if other != key {
 		vxReach("decrypt: other key")
 		_, err = b.Decrypt(ctx, other, ct)
